@@ -320,8 +320,10 @@ fn die_with_parent(cmd: &mut Command) {
 
 /// a loopback port for a server child of this worker process (per process, so that a
 /// dying predecessor on the same port cannot be mistaken for the new server)
+/// A port for this worker's server: below the range the kernel hands out to outgoing
+/// connections (32768..), or a burst of client connections elsewhere could hold it.
 pub fn server_port() -> u16 {
-    30000 + (std::process::id() % 25000) as u16
+    10000 + (std::process::id() % 20000) as u16
 }
 
 /// worker index, from the name of its scratch directory (w<k>)
@@ -415,7 +417,20 @@ pub struct ServerChild {
 }
 
 impl ServerChild {
+    /// Start on `port`, or on one of the next few if that one is taken.
     pub fn start(env: &WorkerEnv, port: u16) -> Result<ServerChild, String> {
+        let mut last = String::new();
+        for k in 0..6u16 {
+            let p = 10000 + ((port as u32 + 20000 - 10000 + k as u32 * 7919) % 20000) as u16;
+            match Self::start_on(env, p) {
+                Ok(s) => return Ok(s),
+                Err(e) => last = e,
+            }
+        }
+        Err(last)
+    }
+
+    fn start_on(env: &WorkerEnv, port: u16) -> Result<ServerChild, String> {
         let exe = env.bin_dir.join("svgdx-server");
         let mut cmd = Command::new(&exe);
         cmd.args(["--port", &port.to_string()])
